@@ -186,6 +186,7 @@ func init() {
 	ghostSorts["tkind"] = SArr2I
 	ghostSorts["tlen"] = SArr2I
 	ghostSorts["tval"] = SArr2I
+	ghostSorts["rejected"] = SArrB
 	ghostSorts["unmarshalledFrom"] = SArrI
 	ghostSorts["decodedFrom"] = SArrI
 
@@ -227,6 +228,12 @@ func init() {
 		e.assume(st, tb.Not(tb.Select(e.ghostArr(st, "desync", SArrB), readerKey(tb, r))))
 		k(st, Val{})
 	}
+}
+
+// markRejected: a third-party unmarshaler or decoder refused the bytes it was given (ghost "rejected", per reader).
+func (e *Engine) markRejected(st *State, r Val) {
+	cur := e.ghostArr(st, "rejected", SArrB)
+	e.setGhost(st, "rejected", e.tb.Store(cur, readerKey(e.tb, r), e.tb.True()))
 }
 
 func (e *Engine) tokErr(st *State, hint string) Val {
@@ -331,7 +338,16 @@ func (e *Engine) tokEncodeFrom(st *State, w Val, vals []Val, i int, pos token.Po
 		return
 	}
 	if marsh != nil && types.Implements(T, marsh) {
-		panic(e.unsupported("perunio.Encode (token model) of a concrete BinaryMarshaler: " + T.String()))
+		// a marshaler of the repository: treated like a third-party one (its MarshalBinary/UnmarshalBinary pair is not examined)
+		e.Assumed["token model: MarshalBinary/UnmarshalBinary pairs of repository types are treated like third-party ones (one token holding what the marshaler produced)"] = true
+		ln := tb.App("marshallen", SInt, el.ifTag(), el.ifVal())
+		e.assume(st, tb.Le(tb.Int(0), ln))
+		failM := tb.Fresh("marshal_fail", SBool)
+		e.forkOn(st, failM, func(st *State) { k(st, e.tokErr(st, "marshal")) }, func(st *State) {
+			e.oblige(st, "panic", "marshal", pos, tb.Le(ln, tb.Int(65535)), "perunio.Encode: marshalled data longer than 65535 bytes (encoder panics)")
+			writeTok(st, "marshal", ln, tb.App("marshalval", SInt, el.ifTag(), el.ifVal()))
+		})
+		return
 	}
 	if encI != nil && types.Implements(T, encI) {
 		fn := e.staticMethod(T, "Encode")
@@ -382,22 +398,22 @@ func (e *Engine) tokDecodeFrom(st *State, r Val, vals []Val, i int, pos token.Po
 			e.Assumed["UnmarshalBinary of types with unknown dynamic type (third-party assets, addresses, app ids, data): does not panic, touches only its receiver"] = true
 			readTok(st, "marshal", nil, func(st *State, val, ok *Term) {
 				// the unmarshaler gets the token's bytes (ghost: unmarshalledFrom); it may reject them
-				key := tb.App("umkey", SInt, el.ifTag(), el.ifVal())
+				key := el.ifVal()
 				cur := e.ghostArr(st, "unmarshalledFrom", SArrI)
 				e.setGhost(st, "unmarshalledFrom", tb.Store(cur, key, tb.Ite(ok, val, tb.Fresh("garbage", SInt))))
 				um := e.ghostArr(st, "unmarshalled", SArrB)
 				e.setGhost(st, "unmarshalled", tb.Store(um, key, tb.True()))
 				rej := tb.Fresh("unmarshal_rejects", SBool)
-				e.forkOn(st, rej, func(st *State) { k(st, e.tokErr(st, "unm")) }, next)
+				e.forkOn(st, rej, func(st *State) { e.markRejected(st, r); k(st, e.tokErr(st, "unm")) }, next)
 			})
 		case decI != nil && types.Implements(bx.Static, decI):
 			e.Assumed["Decode of values with unknown dynamic type (third-party wire addresses etc.): does not panic, touches only its receiver"] = true
 			readTok(st, "encoder", nil, func(st *State, val, ok *Term) {
-				key := tb.App("umkey", SInt, el.ifTag(), el.ifVal())
+				key := el.ifVal()
 				cur := e.ghostArr(st, "decodedFrom", SArrI)
 				e.setGhost(st, "decodedFrom", tb.Store(cur, key, tb.Ite(ok, val, tb.Fresh("garbage", SInt))))
 				rej := tb.Fresh("decoder_rejects", SBool)
-				e.forkOn(st, rej, func(st *State) { k(st, e.tokErr(st, "dec")) }, next)
+				e.forkOn(st, rej, func(st *State) { e.markRejected(st, r); k(st, e.tokErr(st, "dec")) }, next)
 			})
 		default:
 			panic(e.unsupported("perunio.Decode into an interface value that is neither a BinaryUnmarshaler nor a Decoder: " + bx.Static.String()))
@@ -421,6 +437,8 @@ func (e *Engine) tokDecodeFrom(st *State, r Val, vals []Val, i int, pos token.Po
 					nv = tb.Ite(okT, tb.Neq(val, tb.Int(0)), fresh.T[0])
 				} else {
 					nv = tb.Ite(okT, val, fresh.T[0])
+					// a token of this kind holds a value of this type (the encoder wrote one): it is within the type's range
+					e.wfVal(st, ET, scalar(nv))
 				}
 				storeVal(st, scalar(nv))
 				next(st)
@@ -492,7 +510,17 @@ func (e *Engine) tokDecodeFrom(st *State, r Val, vals []Val, i int, pos token.Po
 		}
 	}
 	if unm != nil && types.Implements(T, unm) {
-		panic(e.unsupported("perunio.Decode (token model) into a concrete BinaryUnmarshaler: " + T.String()))
+		e.Assumed["token model: MarshalBinary/UnmarshalBinary pairs of repository types are treated like third-party ones (one token holding what the marshaler produced)"] = true
+		readTok(st, "marshal", nil, func(st *State, val, ok *Term) {
+			key := el.ifVal()
+			cur := e.ghostArr(st, "unmarshalledFrom", SArrI)
+			e.setGhost(st, "unmarshalledFrom", tb.Store(cur, key, tb.Ite(ok, val, tb.Fresh("garbage", SInt))))
+			um := e.ghostArr(st, "unmarshalled", SArrB)
+			e.setGhost(st, "unmarshalled", tb.Store(um, key, tb.True()))
+			rej := tb.Fresh("unmarshal_rejects", SBool)
+			e.forkOn(st, rej, func(st *State) { e.markRejected(st, r); k(st, e.tokErr(st, "unm")) }, next)
+		})
+		return
 	}
 	if decI != nil && types.Implements(T, decI) {
 		fn := e.staticMethod(T, "Decode")
@@ -506,6 +534,154 @@ func (e *Engine) tokDecodeFrom(st *State, r Val, vals []Val, i int, pos token.Po
 	}
 	e.oblige(st, "panic", "type", pos, tb.False(), "perunio.Decode: invalid type "+T.String())
 	panic(pathAbort{})
+}
+
+
+// codecOf returns the codec declaration of the receiver type of an Encode/Decode method (nil if none) and the named type.
+func (e *Engine) codecOf(fn *ssa.Function) (*CodecDecl, types.Type) {
+	if e.Specs.Codecs == nil {
+		return nil, nil
+	}
+	t := fn.Signature.Recv().Type()
+	if p, ok := t.(*types.Pointer); ok {
+		t = p.Elem()
+	}
+	n, ok := types.Unalias(t).(*types.Named)
+	if !ok || n.Obj().Pkg() == nil {
+		return nil, nil
+	}
+	return e.Specs.Codecs[n.Obj().Pkg().Path()+"::"+n.Obj().Name()], n
+}
+
+// evalPred evaluates a named predicate on the given arguments in the current state.
+func (e *Engine) evalPred(st *State, name string, args []specBind) (t *Term) {
+	pd, ok := e.Specs.Preds[name]
+	if !ok || len(pd.Params) != len(args) {
+		panic(e.unsupported("codec predicate " + name + " is not defined with the right number of parameters"))
+	}
+	defer func() {
+		if r := recover(); r != nil {
+			if se, ok := r.(specErr); ok {
+				panic(e.unsupported(fmt.Sprintf("spec error in codec predicate %s: %s", name, se.msg)))
+			}
+			panic(r)
+		}
+	}()
+	env := map[string]specBind{}
+	for i, p := range pd.Params {
+		env[p.Name] = args[i]
+	}
+	sc := &specCtx{e: e, st: st, heap: st.Heap, oldHeap: e.entryHeap, oldAlloc: e.entryAlloc, env: env, pkg: e.Pkgs[pd.Pkg].Types}
+	return sc.evalBool(pd.Body)
+}
+
+// codecEncRecv: the receiver type of the type's Encode method (T or *T).
+func (e *Engine) codecEncRecv(T types.Type) types.Type {
+	if fn := e.staticMethod(T, "Encode"); fn != nil {
+		return fn.Signature.Recv().Type()
+	}
+	if fn := e.staticMethod(types.NewPointer(T), "Encode"); fn != nil {
+		return fn.Signature.Recv().Type()
+	}
+	return T
+}
+
+const sumAssumption = "summary tokens: inside the lemma function of another type a nested value whose type has a proved round-trip lemma (codec declaration) is one token; decoding it yields a value related to the encoded one by the lemma's equality predicate and consumes that one token (justified by the nested type's lemma; composition argued as for primitive tokens)"
+
+// sumInjective: the summary determines the value's leaves (sumval is injective): for all leaves, unsum_i(sumval(l1..ln)) == li.
+func (e *Engine) sumInjective(st *State, RT types.Type) {
+	tb := e.tb
+	n := len(Leaves(RT))
+	var bvs []*Term
+	for i := 0; i < n; i++ {
+		bvs = append(bvs, tb.BoundVar(fmt.Sprintf("l%d", i), SInt))
+	}
+	gen := tb.App("sumval_"+typeKey(RT), SInt, bvs...)
+	var eqs []*Term
+	for i := 0; i < n; i++ {
+		eqs = append(eqs, tb.Eq(tb.App(fmt.Sprintf("unsum_%s_%d", typeKey(RT), i), SInt, gen), bvs[i]))
+	}
+	e.assume(st, tb.Forall(bvs, tb.And(eqs...), []*Term{gen}))
+}
+
+// tokSummaryEncode: Encode of a nested value with a codec declaration.
+func (e *Engine) tokSummaryEncode(st *State, cd *CodecDecl, T types.Type, fn *ssa.Function, args []Val, pos token.Pos, k Kont) {
+	tb := e.tb
+	e.Assumed[sumAssumption] = true
+	RT := fn.Signature.Recv().Type()
+	v, w := args[0], args[1]
+	if obj, ok := fn.Object().(*types.Func); ok && fn.Synthetic != "" {
+		// pointer wrapper of a method declared on the value type: the value is what gets encoded
+		if sig, ok := obj.Type().(*types.Signature); ok && sig.Recv() != nil {
+			_, wrapPtr := RT.(*types.Pointer)
+			_, declPtr := sig.Recv().Type().(*types.Pointer)
+			if wrapPtr && !declPtr {
+				e.nilCheck(st, v, pos, "Encode on nil "+RT.String())
+				v = e.load(st, v, sig.Recv().Type())
+				RT = sig.Recv().Type()
+			}
+		}
+	}
+	if _, isPtr := RT.(*types.Pointer); isPtr {
+		e.nilCheck(st, v, pos, "Encode on nil "+RT.String())
+		v = e.plainPtr(st, v)
+	}
+	e.oblige(st, "pre", "codec "+cd.Type, pos, e.evalPred(st, cd.WF, []specBind{{v, RT}}), "hypothesis of the round-trip lemma "+cd.By+": "+cd.WF)
+	fv := e.flatten(st, RT, v)
+	leaves := intTerms(tb, fv.T)
+	val := tb.App("sumval_"+typeKey(RT), SInt, leaves...)
+	e.sumInjective(st, RT)
+	fail := tb.Fresh("tokw_fail", SBool)
+	e.forkOn(st, fail, func(st *State) { k(st, e.tokErr(st, "enc")) }, func(st *State) {
+		e.tokWrite(st, w, e.tokKind("sum:"+typeKey(RT)), tb.Int(0), val)
+		k(st, nilErr(tb))
+	})
+}
+
+// tokSummaryDecode: Decode into a nested value with a codec declaration.
+func (e *Engine) tokSummaryDecode(st *State, cd *CodecDecl, T types.Type, fn *ssa.Function, args []Val, pos token.Pos, k Kont) {
+	tb := e.tb
+	e.Assumed[sumAssumption] = true
+	p, r := args[0], args[1]
+	e.nilCheck(st, p, pos, "Decode into nil "+T.String())
+	RT := e.codecEncRecv(T)
+	_, encPtr := RT.(*types.Pointer)
+	fail := tb.Fresh("tokr_fail", SBool)
+	e.forkOn(st, fail, func(st *State) {
+		cur := e.ghostArr(st, "rfail", SArrB)
+		e.setGhost(st, "rfail", tb.Store(cur, readerKey(tb, r), tb.True()))
+		// a failed decode may leave anything in the target
+		e.store(st, p, T, e.freshVal(st, T, "partial"))
+		k(st, e.tokErr(st, "dec"))
+	}, func(st *State) {
+		val, okT := e.tokRead(st, r, e.tokKind("sum:"+typeKey(RT)), nil)
+		e.sumInjective(st, RT)
+		y := e.freshVal(st, T, "decoded")
+		e.store(st, p, T, y)
+		e.forkOn(st, okT, func(st *State) {
+			// source value reconstructed from the token
+			ls := Leaves(RT)
+			src := Val{T: make([]*Term, len(ls))}
+			for i, l := range ls {
+				t := tb.App(fmt.Sprintf("unsum_%s_%d", typeKey(RT), i), SInt, val)
+				if l.Sort == SBool {
+					t = tb.Neq(t, tb.Int(0))
+				}
+				src.T[i] = t
+			}
+			var eq *Term
+			if encPtr {
+				eq = e.evalPred(st, cd.Eq, []specBind{{e.plainPtr(st, p), RT}, {src, RT}})
+			} else {
+				eq = e.evalPred(st, cd.Eq, []specBind{{e.load(st, p, T), T}, {src, RT}})
+			}
+			e.assume(st, eq)
+			k(st, nilErr(tb))
+		}, func(st *State) {
+			rej := tb.Fresh("garbage_rejected", SBool)
+			e.forkOn(st, rej, func(st *State) { k(st, e.tokErr(st, "dec")) }, func(st *State) { k(st, nilErr(tb)) })
+		})
+	})
 }
 
 var _ = big.NewInt
